@@ -1,9 +1,11 @@
 """C20 — containers are self-describing (P-tier: what TOCSchemas._register embeds is what the plugin system reports; records are dropped exactly when unused)."""
-from . import epnames, pgschema, schema_core, toc, tocread, tocreg, wrappers
+from . import entrypoints, epnames, pgschema, schema_core, toc, tocread, tocreg, wrappers
 
 
 def build(reg):
     specs = toc.add_toc(reg) + tocreg.add_tocreg(reg) + schema_core.build_c20_schema(reg) + wrappers.add_destroy(reg) + epnames.add_stored(reg) + tocread.add_tocread(reg) + tocread.add_tocread2(reg)  # (and: an object's schema is read back from its node name); a meta-less copy must not unregister what the originals still use
+    specs += entrypoints.add_for_package(reg)
+    specs += entrypoints.add_entrypoints(reg)  # where the package records come from
     specs += [x for x in pgschema.add_pgschema(reg) if 'C20' in x.props]  # the parent chain that gets embedded as 'compat'
     from . import oneliners
 
@@ -11,6 +13,6 @@ def build(reg):
     return {
         "verify": specs,
         "lemmas": [],
-        "trusted": oneliners.T_ONE + pgschema.T_PGS + tocread.T_TOCREAD + [toc.T_PLUGIN] + tocreg.T_TOCREG + tocreg.T_PLUGINSYS,
+        "trusted": oneliners.T_ONE + entrypoints.T_EPS + pgschema.T_PGS + tocread.T_TOCREAD + [toc.T_PLUGIN] + tocreg.T_TOCREG + tocreg.T_PLUGINSYS,
         "assumptions": ["JSON-Schema generation (schema_json) and validation of stored objects against it are pydantic's / jsonschema's and checked bounded"],
     }
